@@ -46,6 +46,9 @@ C19_FORBIDDEN = re.compile(r'std::io|std::fs|std::env|std::process|std::net|std:
                            r'core::sync|core::cell|std::cell|static mut|interior mutab|_print|_eprint|std::os')
 
 
+C19_PURE_STD = re.compile(r'(std|core|alloc)::(option|result|slice|vec|iter|str|string|cmp|convert|ops|num|mem|clone|default|borrow|array|fmt|boxed|marker|primitive|char|u8|u16|u32|u64|usize)\b')
+
+
 def sh(cmd, cwd=None, timeout=None, env=None):
     t0 = time.time()
     p = subprocess.run(cmd, cwd=cwd, capture_output=True, text=True, timeout=timeout, env=env)
@@ -264,7 +267,9 @@ def external_body_fns(image_text, lookup):
 FRAME_FORBIDDEN = re.compile(
     r'\b(print|println|eprint|eprintln|dbg|thread_local|lazy_static)\s*!|\bstatic\s+mut\b|\bstd::(io|fs|env|process|net|time|thread|sync|cell|os)\b|'
     r'\bcore::(sync|cell)\b|\b(io::(stdout|stderr|stdin)|Stdout|Stderr)\b|\b(Cell|RefCell|UnsafeCell|OnceCell|OnceLock|LazyLock|LazyCell|Mutex|RwLock|Condvar|Lazy)\b|'
-    r'\bAtomic[A-Z]\w*\b|\b(SystemTime|Instant)\b|\b(rand|getrandom|once_cell|libc)::|\bextern\s+"C"|\basm!')
+    r'\bAtomic[A-Z]\w*\b|\b(SystemTime|Instant)\b|\b(rand|getrandom|once_cell|libc)::|\bextern\s+"C"|\basm!|'
+    r'\b(RandomState|DefaultHasher|BuildHasher|HashMap|HashSet|hash_map|thread_rng|ThreadId|current_thread|available_parallelism)\b|'
+    r'\bstd::(collections::hash|hash::|ptr::(read|write)_volatile|alloc::)|\baddr_of|\bas\s+\*const\b.*\bas\s+usize')
 STATIC_ALLOWED = {'MESSAGE_CODE_TO_TYPE'}
 
 
@@ -293,10 +298,8 @@ def frame_scan(repo):
             for m in FRAME_FORBIDDEN.finditer(b):
                 ln = b.count('\n', 0, m.start()) + 1
                 hits.append({'file': rel, 'line': ln, 'what': m.group(0).strip(), 'text': text.split('\n')[ln - 1].strip()[:160]})
-            for m in re.finditer(r'(?m)^\s*(pub(\([a-z]+\))?\s+)?static\s+(mut\s+)?(\w+)', b):
-                if m.group(4) not in STATIC_ALLOWED:
-                    ln = b.count('\n', 0, m.start()) + 1
-                    hits.append({'file': rel, 'line': ln, 'what': 'static item ' + m.group(4), 'text': text.split('\n')[ln - 1].strip()[:160]})
+            # an immutable `static` of a plain type is a constant table (no shared state); `static mut` and interior
+            # mutability are caught by the token list above
     return files, hits
 
 
@@ -402,6 +405,7 @@ def decide(props, a, seed, workdir, t0):
     skip_body = set()
     force_external = set()
     drop_statics = set()
+    rejected_msgs = {}
     for _round in range(6):
         fe = [f for f in fails if f['kind'] == 'frontend']
         if not fe or (vr['json'] and vr['json'].get('verification-results', {}).get('verified')):
@@ -436,6 +440,7 @@ def decide(props, a, seed, workdir, t0):
                     # leave the body outside the image; its contract is then ASSUMED for callers and every clause of
                     # it is reported as unverified (decided by a concrete witness)
                     new_skip.add('!' + k)
+                    rejected_msgs.setdefault(k, f['message'])
         if not new_skip:
             break
         for k in new_skip:
@@ -519,7 +524,7 @@ def decide(props, a, seed, workdir, t0):
             smt_total += f.get('time-micros', f.get('time', 0)) / 1e6 if 'time-micros' in f else f.get('time', 0) / 1e3
     # ---- 4. canary: every contracted function must FAIL `ensures false` -------------------------------
     canary_info = {'checked': 0, 'failed_as_expected': 0, 'vacuous': [], 'frame_files': frame_files, 'frame_hits': frame_hits,
-                   'exec_fns_verified': None}
+                   'exec_fns_verified': None, 'rejected_msgs': rejected_msgs}
     if cr is not None and cr['json'] is not None:
         cf_fails = classify(cr, cmaps, cimage.split('\n'), clookup)
         failed_fns = set()
@@ -602,10 +607,11 @@ def decide_one(p, a, seed, t0, vr, cr, seeds, kr, fails, maps, image, lookup, co
         else:
             candidates.append(f)
     for f in fails:
-        # a failure that no property claims (new function nobody calls, conversion impl, ...) must not end in OK
-        if f['kind'] == 'verification' and not f['labels'] and f['fn'] and not f.get('unverified'):
-            r = default_safety(f['fn'], contracts)
-            if not r['props'] and not r['secondary'] and not f['fn'].startswith('vf_'):
+        # a failure that no property claims (new function nobody calls, conversion impl, a diagnostic whose span lies in a
+        # std macro, ...) must not end in OK
+        if f['kind'] == 'verification' and not f['labels']:
+            r = default_safety(f['fn'], contracts) if f['fn'] else {'props': [], 'secondary': []}
+            if not r['props'] and not r['secondary'] and not (f['fn'] or '').startswith('vf_'):
                 g = dict(f)
                 g['undecided'] = True
                 inconclusive.append(g)
@@ -651,6 +657,22 @@ def decide_one(p, a, seed, t0, vr, cr, seeds, kr, fails, maps, image, lookup, co
     extra_obl = 0
     extra_dis = 0
     if p == 'C19':
+        for k in maps.get('forced_external', []):
+            if re.search(r' as (Debug|Display|fmt::Debug|fmt::Display)>::fmt$', k):
+                continue    # text formatting of values is not a codec path
+            if k in maps.get('lost_anchors', {}) and any('debug_assertions' in x for x in maps['lost_anchors'][k]):
+                continue    # not a front-end rejection (configuration-dependent external body): C19 is not concerned
+            msg = canary_info.get('rejected_msgs', {}).get(k, '')
+            paths = re.findall(r'`((?:std|core|alloc)::[A-Za-z0-9_:<>]+)`', msg)
+            bad = [x for x in paths if not C19_PURE_STD.match(x)]
+            if C19_FORBIDDEN.search(msg) or bad:
+                # closed world: the rejected call is to something outside the pure part of std
+                violations.append({'kind': 'verification', 'message': 'closed world: %s calls %s' % (k, ', '.join(bad) or msg[:120]),
+                                   'rendered': msg, 'fn': k, 'labels': [], 'lines': [], 'names': ['C19:closed-world:%s' % k]})
+                continue
+            inconclusive.append({'kind': 'closed-world', 'labels': [], 'fn': k, 'lines': [], 'undecided': True,
+                                 'message': 'the body of %s is rejected by the Verus front end, so the closed-world argument does not cover it' % k,
+                                 'rendered': 'closed world void for %s (forced external_body)' % k})
         # (1) closed world: the image reached the proof stage, i.e. no verified function calls anything without a contract;
         # (2) frame scan: one obligation per non-test source file
         extra_obl = 1 + canary_info['frame_files']
